@@ -378,7 +378,10 @@ func buildAdjust(ops []MOp, stripArgsMarker bool) *api.ContainerAdjustment {
 }
 
 func buildUpdate(u MUpdate) *api.ContainerUpdate {
-	cu := &api.ContainerUpdate{ContainerId: u.Target, IgnoreFailure: u.Ignore}
+	cu := &api.ContainerUpdate{ContainerId: u.Target}
+	if u.Ignore {
+		cu.SetIgnoreFailure() // the plugin-facing helper
+	}
 	if u.NoRes {
 		return cu
 	}
@@ -923,6 +926,10 @@ func mergeOracle(res *Result, o *mOut, order []string, entries []*Entry, twins b
 	}
 	if o.Err != nil {
 		add("C02.false-conflict", "%s: no two plugins set the same item of the same container, but the request failed: %v; %s", tag, o.Err, describeReq(rq, order))
+		if ex.Dropped > 0 {
+			// the only clashes of this request are in updates marked ignore-failure
+			add("C05.ignore-failure-fails-request", "%s: an update marked ignore-failure clashes with an earlier claim: it must be dropped without failing the request, but the request failed: %v; %s", tag, o.Err, describeReq(rq, order))
+		}
 		res.Skip("request failed unexpectedly (C02's subject); content oracles not evaluated")
 		return vs, tag + " unexpected error"
 	}
